@@ -350,9 +350,106 @@ func (c *Ctx) checkForwarderSSA(rule string, sp fwdSpec) fwdResultSSA {
 					}
 				}
 			}
+			if !okExit && sp.mode == fwdAllFirstErr {
+				return fail(b.Instrs[len(b.Instrs)-1].Pos(), "the loop over the destinations is left before every destination's "+sp.target+" was called (also when it is left on a destination's error): the destinations after the failing one keep the message in their buffers and send it glued to the next message, or never")
+			}
 			if !okExit {
 				return fail(b.Instrs[len(b.Instrs)-1].Pos(), "the loop over the children can be left early (break/return not caused by the child's own error): later children are not called")
 			}
+		}
+	}
+	if sp.mode == fwdAllFirstErr {
+		// the error returned is nil or a child's answer, and a child's answer is committed only where
+		// it was found non-nil (a later success must not wipe out an earlier failure)
+		isCallRes := func(v ssa.Value) ssa.Value {
+			v = canon(v)
+			if ex, isEx := v.(*ssa.Extract); isEx {
+				v = ex.Tuple
+			}
+			for _, ci := range calls {
+				if cv, isV := ci.(ssa.Value); isV && v == cv {
+					return v
+				}
+			}
+			return nil
+		}
+		sawChild := false
+		seen := map[ssa.Value]bool{}
+		var walkErr func(v ssa.Value, pred *ssa.BasicBlock) string
+		walkErr = func(v ssa.Value, pred *ssa.BasicBlock) string {
+			v = canon(v)
+			if isNilConst(v) {
+				return ""
+			}
+			if r := isCallRes(v); r != nil {
+				sawChild = true
+				// committed on the edge r != nil
+				if pred != nil {
+					for _, b := range fn.Blocks {
+						iff, isIf := condOf(b)
+						if !isIf {
+							continue
+						}
+						for _, alt := range condAlternatives(iff.Cond, 2) {
+							op, x, y, isCmp := cmpOf(alt.v)
+							if !isCmp || (op != token.EQL && op != token.NEQ) {
+								continue
+							}
+							if isNilConst(x) {
+								x, y = y, x
+							}
+							if !isNilConst(y) {
+								continue
+							}
+							if _, isAcc := canon(x).(*ssa.Phi); isAcc && seen[canon(x)] {
+								// ... or committed while the error kept so far is still nil (nothing to wipe out)
+								idxNil := b2i(op == token.NEQ) // successor taken when the accumulator == nil
+								if alt.onlyWhen == -1 || alt.onlyWhen == idxNil {
+									if edgeDominates(b, idxNil, pred) {
+										return ""
+									}
+								}
+								continue
+							}
+							if isCallRes(x) != r {
+								continue
+							}
+							idx := b2i(op == token.EQL) // successor taken when r != nil
+							if alt.onlyWhen != -1 && alt.onlyWhen != idx {
+								continue
+							}
+							if edgeDominates(b, idx, pred) || b == pred {
+								return ""
+							}
+						}
+					}
+				}
+				return "a child's answer replaces the error to be returned on a path where that answer was not found to be an error: a later success wipes out an earlier failure"
+			}
+			if phi, isPhi := v.(*ssa.Phi); isPhi {
+				if seen[v] {
+					return ""
+				}
+				seen[v] = true
+				for i, e := range phi.Edges {
+					if w := walkErr(e, phi.Block().Preds[i]); w != "" {
+						return w
+					}
+				}
+				return ""
+			}
+			return "the error returned is neither nil nor a child's answer"
+		}
+		for _, r := range returnsOf(fn) {
+			if len(r.Results) == 0 {
+				continue
+			}
+			if w := walkErr(r.Results[len(r.Results)-1], nil); w != "" {
+				return fail(r.Pos(), w, c.describe(r))
+			}
+		}
+		if !sawChild {
+			return fail(fn.Pos(), "no child's error can reach the caller: a failed "+sp.target+" is reported as success")
 		}
 	}
 	// nothing else with side effects on shared state inside the loop: no other calls except builtins
